@@ -24,7 +24,18 @@ Proof. vm_compute. reflexivity. Qed.
 Lemma ob_allow_http : proxy_allow_http = true.
 Proof. vm_compute. reflexivity. Qed.
 
+(* readRequest replaces the header deadline by the whole-request deadline (none when ReadTimeout is 0) once the head is read *)
+Lemma ob_header_deadline_not_kept_for_body : deadline_adjust_requires_whole = false.
+Proof. vm_compute. reflexivity. Qed.
+
 (* ---------- consequences ---------- *)
+Lemma body_deadline_is_whole hdr whole : body_read_deadline hdr whole = whole.
+Proof.
+  unfold body_read_deadline. rewrite ob_header_deadline_not_kept_for_body.
+  destruct hdr as [x|], whole as [y|]; cbn [opt_n_eqb]; try reflexivity.
+  destruct (x =? y) eqn:E; [apply N.eqb_eq in E; subst; reflexivity | reflexivity].
+Qed.
+
 Definition f01_modify_is_pipeline := modify_request_is_pipeline ob_flat_stack ob_xff_reads_all_lines ob_xfwd_fill_reads_all_lines ob_via_reads_all_lines.
 Definition f01_end_to_end := end_to_end_preserved ob_hop_list ob_flat_stack ob_xff_reads_all_lines ob_xfwd_fill_reads_all_lines ob_via_reads_all_lines.
 Definition f01_removed := hop_by_hop_removed ob_hop_list ob_flat_stack ob_xff_reads_all_lines ob_xfwd_fill_reads_all_lines ob_via_reads_all_lines.
